@@ -1,1 +1,10 @@
-//! Verification hooks: job (see verif/mod.rs).
+//! Verification hooks: the job layer (`State`, `Job`, tako callbacks).
+use crate::server::Senders;
+use crate::server::state::StateRef;
+use crate::server::verif_access::UpstreamEventProcessor;
+use tako::events::EventProcessor;
+
+/// The production `EventProcessor` that connects tako's reactor with the HQ job layer.
+pub fn make_event_processor(state_ref: StateRef, senders: Senders) -> Box<dyn EventProcessor> {
+    Box::new(UpstreamEventProcessor::new(state_ref, senders))
+}
